@@ -47,6 +47,9 @@ def gen_case(rng, tier):
     opts = kgen.Opts(p_part=rng.choice([0.5, 0.8, 0.95]), id_pool=3, fancy_ids=rng.random() < 0.3, ts_style='small',
                      max_rows=4, image_pool=4, partial_poses=False, dtypes=['float32'],
                      cols=rng.choice([3, 6]))
+    if rng.random() < 0.35:
+        # reconstructions: every input has images, keypoints and points; observations present or absent per input
+        opts.force_parts = {'records_camera', 'keypoints', 'points3d'}
     dsets = []
     for i in range(n):
         d = mc.normalise_features(kgen.gen_dataset(rng, opts))
@@ -60,7 +63,7 @@ def gen_case(rng, tier):
 
 
 def cases(rng, tier):
-    n = 60 if tier == 'quick' else 1500
+    n = 160 if tier == 'quick' else 1500
     return [gen_case(rng, tier) for _ in range(n)]
 
 
@@ -95,6 +98,7 @@ def _run_real(case):
             objs.append(kobj)
         skip_types = [getattr(kapture, t) for t in case['skip']]
         merged_path = os.path.join(base, 'merged')
+        md_pre = None
         os.makedirs(merged_path)
         strategy = TransferAction[case['strategy']]
         handlers = []
@@ -151,13 +155,16 @@ def _run_real(case):
                     err = None
                 except Exception as e:
                     merged, err = None, type(e).__name__ + ': ' + str(e)[:200]
+                if merged is not None:
+                    md_pre = kgen.describe(merged)
+                    mc.scribble(merged)          # the result is the caller's: wiping it must not reach the inputs
                 after = [kgen.describe(o) for o in objs]
         finally:
             for th in handlers:
                 th.close()
         res = {'error': err, 'inputs': inputs_desc, 'before': before, 'after': after, 'in_digests': digests, 'in_rec': recdig}
         if merged is not None:
-            md = kgen.describe(merged)
+            md = md_pre if md_pre is not None else kgen.describe(merged)
             res['merged'] = md
             md_files = md
             if case['via_tool'] and inputs_desc:
@@ -345,6 +352,28 @@ def oracle(case):
             have = r['merged_digests'].get(kind, {}).get(t, {}).get(nme)
             if want != have:
                 return {'signature': 'feature-file:' + kind, 'detail': f'{kind}/{t}/{nme}: merged {have} != first source {want}'}
+    if not case['via_tool'] and 'Points3d' not in case['skip'] and 'Keypoints' not in case['skip']:
+        # the reconstruction part of "for every part, exactly the union": points are concatenated in input order and every
+        # observation still designates the same coordinates (C11 states this in full; here on C09's own inputs)
+        rows = [] if md['points3d'] is None else md['points3d']['rows']
+        expect_rows, expect_obs, off = [], {}, 0
+        for d in r['inputs']:
+            if d['points3d'] is None:
+                continue
+            mine = d['points3d']['rows']
+            for i, kt, img, f in (d['observations'] or []):
+                expect_obs[(i + off, kt, img, f)] = expect_obs.get((i + off, kt, img, f), 0) + 1
+            expect_rows += mine
+            off += len(mine)
+        if rows != expect_rows:
+            return {'signature': 'points-not-concatenated', 'detail': f'{len(rows)} merged points, concatenation has {len(expect_rows)}'}
+        if 'Observations' not in case['skip']:
+            got = {}
+            for o in (md['observations'] or []):
+                got[tuple(o)] = got.get(tuple(o), 0) + 1
+            if got != expect_obs:
+                return {'signature': 'observations-differ', 'detail': f'lost {[k for k in expect_obs if k not in got][:3]} '
+                        f'extra {[k for k in got if k not in expect_obs][:3]}'}
     if case['strategy'] in ('copy', 'link_absolute', 'link_relative'):
         for part in ('records_camera', 'records_depth'):
             if mc.TYPE_OF_ATTR[part] in case['skip']:
